@@ -7,7 +7,7 @@
 # awkward_RegularArray_localindex in functional.py).
 
 
-def FILL(name, arr, n, val, off=None, serves=(), guard=None, extra_loops=()):
+def FILL(name, arr, n, val, off=None, serves=(), guard=None, extra_loops=(), nonneg=None):
     """for (i = 0; i < n; i++) arr[off + i] = val(i)"""
     at = "q" if off is None else "%s + q" % off
     body = "%s[%s] == %s" % (arr, at, val.replace("@", "q"))
@@ -19,7 +19,8 @@ def FILL(name, arr, n, val, off=None, serves=(), guard=None, extra_loops=()):
         frame = "forall(q, 0, %s, %s[q] == old(%s[q]))" % (off, arr, arr)
         inv.append(frame)
         post.append(frame)
-    K(name, loops={"L0": inv}, ensures_ok=post, serves=list(serves) + ["C12", "C13"])
+    K(name, loops={"L0": inv}, ensures_ok=post, serves=list(serves) + ["C12", "C13"],
+      **({"nonneg": nonneg} if nonneg is not None else {}))
 
 
 # ---- C05: num / local_index / offsets of regular and list arrays
@@ -280,8 +281,9 @@ K("awkward_UnionArray_regular_index_getsize",
   serves=["C08", "C12", "C13"])
 
 # ---- C01 / C02: positions of a strided n-dimensional array made contiguous
-FILL("awkward_NumpyArray_contiguous_init", "toptr", "skip", "@*stride", serves=["C02"])
+FILL("awkward_NumpyArray_contiguous_init", "toptr", "skip", "@*stride", serves=["C02"], nonneg=["skip"])
 K("awkward_NumpyArray_contiguous_next",
+  nonneg=["length", "skip"],      # (a stride may be negative: reversed views)
   store_asserts={"topos": ["at == i*skip + j", "value == frompos[i] + j*stride"]},
   serves=["C02", "C12", "C13"])
 
@@ -293,19 +295,19 @@ K("awkward_NumpyArray_copy",
   serves=["C02", "C12", "C13"])
 
 K("awkward_NumpyArray_contiguous_copy",
-  extents={"toptr": "len * stride", "pos": "len", "fromptr": "ghost_nfrom"},
-  ghost={"ghost_nfrom": ([], None)},
-  requires=["forall(q, 0, len, 0 <= pos[q] and pos[q] + stride <= ghost_nfrom)"],
+  extents={"toptr": "len * stride", "pos": "len"},
+  nonneg=["len", "stride"],
+  unchecked=["fromptr"],
   loops={"L0": ["0 <= i"]},
-  notes="the source buffer's byte length is not a parameter: it is the ghost ghost_nfrom the caller's positions must stay below",
+  notes="fromptr is data() of a view: positions are byte offsets relative to it and are negative for a negative stride; the extent of the underlying buffer on either side is not a parameter, so the source range is not under contract (the destination range is)",
   serves=["C02", "C12", "C13"])
 
 K("awkward_NumpyArray_getitem_next_null",
-  extents={"toptr": "len * stride", "pos": "len", "fromptr": "ghost_nfrom"},
-  ghost={"ghost_nfrom": ([], None)},
-  requires=["forall(q, 0, len, 0 <= pos[q] and pos[q] * stride + stride <= ghost_nfrom)"],
+  extents={"toptr": "len * stride", "pos": "len"},
+  nonneg=["len", "stride"],
+  unchecked=["fromptr"],
   loops={"L0": ["0 <= i"]},
-  notes="the source buffer's byte length is not a parameter: it is the ghost ghost_nfrom the caller's positions must stay below",
+  notes="as for contiguous_copy: the source buffer's extent around fromptr is not a parameter",
   serves=["C01", "C12", "C13"])
 
 
@@ -316,3 +318,33 @@ K("awkward_ListOffsetArray_reduce_nonlocal_findgaps_64",
                 "last == 0 - 1 or exists(q, 0, i, parents[q] == last)"]},
   store_asserts={"gaps": ["at == k", "value == parents[i] - last", "value > 0"]},
   serves=["C03", "C12", "C13"])
+
+
+# ---- C01 (jagged index with missing rows): row i of the index is present or missing as index_in says; a present
+# row keeps its own position as its mask entry, and the rows' ranges partition offsets_in in order: the n-th present
+# row gets [offsets_in[n], offsets_in[n+1]), a missing row gets an empty range at the current position
+_VN = {"P": ("q", "length", "ite(index_in[q] >= 0, 1, 0)", ["index_in"], "unit")}
+K("awkward_Content_getitem_next_missing_jagged_getmaskstartstop",
+  sums=_VN,
+  extents={"offsets_in": "P(index_in, length) + 1"},
+  loops={"L0": ["0 <= i", "i <= length", "k == P(index_in, i)"]},
+  store_asserts={"mask_out": ["at == i", "value == ite(index_in[i] < 0, 0 - 1, i)"],
+                 "starts_out": ["at == i", "value == offsets_in[P(index_in, i)]"],
+                 "stops_out": ["at == i", "value == offsets_in[P(index_in, i) + ite(index_in[i] < 0, 0, 1)]"]},
+  serves=["C01", "C12", "C13"])
+
+# ---- C06 (argsort: missing values last, every position used once): the missing slots (-1) are numbered with fresh
+# positions above the largest position present, in order; present slots keep their positions
+_NM = {"NM": ("q", "length", "ite(old(toindex[q]) == 0 - 1, 1, 0)", ["toindex"], "unit")}
+K("awkward_Index_nones_as_index",
+  loops={"L0": ["0 <= i", "last_index >= 0", "forall(q, 0, i, toindex[q] <= last_index)",
+                "last_index == 0 or exists(q, 0, i, toindex[q] == last_index)",
+                "forall(q, 0, length, toindex[q] == old(toindex[q]))"],
+         "L1": ["0 <= i", "i <= length", "last_index >= entry(last_index)",
+                "forall(q, i, length, toindex[q] == old(toindex[q]))",
+                "forall(q, 0, i, implies(old(toindex[q]) != 0 - 1, toindex[q] == old(toindex[q])))",
+                "forall(q, 0, i, implies(old(toindex[q]) == 0 - 1, entry(last_index) < toindex[q] and toindex[q] <= last_index))"]},
+  store_asserts={"toindex@L1": ["at == i", "old(toindex[at]) == 0 - 1", "value == last_index"]},
+  ensures_ok=["forall(q, 0, length, implies(old(toindex[q]) != 0 - 1, toindex[q] == old(toindex[q])))",
+              "forall(q, 0, length, implies(old(toindex[q]) == 0 - 1, toindex[q] > old(toindex[q]) and forall(r, 0, length, implies(old(toindex[r]) != 0 - 1, toindex[q] > old(toindex[r])))))"],
+  serves=["C06", "C12", "C13"])
